@@ -12,13 +12,16 @@ args = [a for a in sys.argv[1:] if not a.startswith('--')]
 only = None
 jobs = 4
 in_repo = '--in-repo' in sys.argv
+SDIR = 'seeded'
 for a in sys.argv[1:]:
     if a.startswith('--checks='):
         only = a.split('=', 1)[1].split(',')
     if a.startswith('--jobs='):
         jobs = int(a.split('=', 1)[1])
-seeds = args or sorted(d for d in os.listdir(os.path.join(V, 'seeded')) if os.path.isdir(os.path.join(V, 'seeded', d)))
-seeds = [s for s in seeds if os.path.exists(os.path.join(V, 'seeded', s, 'patch.diff'))]
+    if a.startswith('--dir='):
+        SDIR = a.split('=', 1)[1]
+seeds = args or sorted(d for d in os.listdir(os.path.join(V, SDIR)) if os.path.isdir(os.path.join(V, SDIR, d)))
+seeds = [s for s in seeds if os.path.exists(os.path.join(V, SDIR, s, 'patch.diff'))]
 
 
 def parse(outs):
@@ -48,7 +51,7 @@ def run_checks(env):
 
 
 def one_scratch(s):
-    d = os.path.join(V, 'seeded', s)
+    d = os.path.join(V, SDIR, s)
     sc = tempfile.mkdtemp(prefix='sfverif-seed-')
     try:
         for sub in ('src', 'include'):
@@ -65,7 +68,7 @@ def one_scratch(s):
 
 
 def one_inrepo(s):
-    d = os.path.join(V, 'seeded', s)
+    d = os.path.join(V, SDIR, s)
     r = subprocess.run(['git', '-C', '/repo', 'apply', os.path.join(d, 'patch.diff')], capture_output=True, text=True)
     if r.returncode != 0:
         return s, None, ['PATCH FAILED ' + r.stderr[:160]]
@@ -103,4 +106,4 @@ else:
             res[s] = hit
 if not args and not only:
     json.dump({k: (None if v is None else [[c, f] for c, f in v]) for k, v in res.items()},
-              open(os.path.join(V, 'seeded', 'last_results.json'), 'w'), indent=1)
+              open(os.path.join(V, SDIR, 'last_results.json'), 'w'), indent=1)
